@@ -47,7 +47,7 @@ EPS = 1e-7  # anything this close to a decision boundary is skipped and counted
 DISC = 1 - math.cos(math.pi / 64) + 1e-6
 
 TIERS = {
-    "quick": dict(k_tri=4, k_cl=3, k_seg=3, k_band=3, k_drv=200, n_maps=8, depth=3, sweep_stride=24),
+    "quick": dict(k_tri=4, k_cl=3, k_seg=3, k_band=3, k_drv=200, n_maps=8, depth=3, sweep_stride=64),
     "thorough": dict(k_tri=10, k_cl=5, k_seg=8, k_band=8, k_drv=2000, n_maps=None, depth=4, sweep_stride=1),
 }
 # lattice of the 15 non-default option combinations in the thorough tier (every element and
@@ -56,7 +56,10 @@ LIGHT = dict(k_tri=2, k_cl=1, k_seg=2, k_band=2, k_drv=100)
 # the medium maps added to the quick tier (intersections, sidewalks, shoulders)
 QUICK_EXTRA = ("LGSVL/borregasave.xodr", "CARLA/Town02.xodr", "CARLA/Town01.xodr")
 N_VARIANT_MAPS = 6
-CACHE_MAP = "opendrive.org/CulDeSac.xodr"
+# protocol exploration on the smallest map with lanes (parse 0.01 s, cache 18 KB): the
+# protocol does not depend on the content; cached-vs-parsed equivalence of rich networks is
+# the round trip done for every map of the tier
+CACHE_MAP = "LGSVL/Straight2LaneSame.xodr"
 SWEEP_MAP = "LGSVL/Straight2LaneSame.xodr"
 
 
@@ -1339,8 +1342,7 @@ class Rig:
             after = self.cache.read_bytes() if self.cache.exists() else None
             self.tally[f"load:{cls}:{'raised' if err else ('parsed' if parsed else 'cache-used')}"] += 1
             if err is not None:
-                clean = isinstance(err, (pickle.UnpicklingError, Network.DigestMismatchError))
-                if not (cls == "soft-corrupt" and clean):
+                if cls != "soft-corrupt":  # (damaged payload: outside the property, tallied only)
                     self.report(f"cache:load-raises:{cls}:{type(err).__name__}", f"{op} with a {cls} cache raised {type(err).__name__}: {str(err)[:200]}", trace)
                 # model: nothing was returned; the cache is whatever is on disk -> resync by observation
                 parsed_for_model = 1 if (after != before and after is not None) else 0
@@ -1358,7 +1360,8 @@ class Rig:
             else:
                 dd = net_diff(self.ref, refkey, net)
             if dd is not None and cls == "soft-corrupt" and parsed == 0:
-                self.report(NOT_REJECTED, f"{op}: a cache with a damaged payload byte was loaded without any error and the returned network differs from a fresh parse ({dd[0]}): {dd[1]}", trace)
+                # the property says nothing about a cache whose payload is damaged
+                self.tally["observed:soft-corrupt-cache-used-and-network-differs"] += 1
             elif dd is not None:
                 self.report(f"cache:network-differs-from-fresh-parse:{cls}:{dd[0]}", f"{op} ({cls} cache, parser ran {parsed}x) returned a network that differs from a fresh parse of the current map with options {cm.OPTS[optname]}: {dd[1]}", trace)
             else:
@@ -1427,11 +1430,15 @@ def cache_item(item):
         rig.close()
 
 
-NOT_REJECTED = "cache:damaged-payload-not-rejected"
+# Damage of the *payload* of a cache whose header still matches is outside the property
+# (it speaks of valid caches and of caches whose map / options differ): the outcomes are
+# observed and counted (ctx.cov["corruption_sweep"]), never reported as violations.  Damage
+# of the header fields (format version, map digest, options digest) is judged: the cache
+# must be ignored and the load must return the freshly parsed network.
 # A load of the 18 KB cache of the sweep map takes ~0.05 s.  Some single-byte damages make
 # pickle.load allocate gigabytes and run for over a minute (measured stand-alone: 69 s,
 # 2.4 GB RSS) before returning: the child is killed after this many seconds without a result.
-LOAD_DEADLINE_S = 25
+LOAD_DEADLINE_S = 10
 
 
 def judge_damaged_cache(rel, mp, ca, data, pos):
@@ -1452,8 +1459,8 @@ def judge_damaged_cache(rel, mp, ca, data, pos):
             net = Network.fromFile(str(mp), useCache=True, writeCache=False, **cm.OPTS["A"])
     except Exception as e:
         v = None
-        if not isinstance(e, (pickle.UnpicklingError, Network.DigestMismatchError)):
-            v = (f"cache:damaged-{zone}-load-raises:{type(e).__name__}", f"cache of {rel} with byte {pos} incremented: fromFile raised {type(e).__name__}: {str(e)[:200]}", case)
+        if zone == "header":
+            v = (f"cache:damaged-header-load-raises:{type(e).__name__}", f"cache of {rel} with header byte {pos} incremented: fromFile raised {type(e).__name__}: {str(e)[:200]}", case)
         return f"{zone}:raised:{type(e).__name__}", v
     parsed = _PARSES[0] - n0
     if parsed:
@@ -1466,9 +1473,9 @@ def judge_damaged_cache(rel, mp, ca, data, pos):
         dd = net_diff(ref, (0, "A"), net)
     key = f"{zone}:{'parsed' if parsed else 'cache-used'}:{'equivalent' if dd is None else 'DIFFERENT-' + dd[0]}"
     v = None
-    if dd is not None:
-        sig = NOT_REJECTED if zone == "payload" and not parsed else f"cache:damaged-{zone}-wrong-network"
-        v = (sig, f"cache of {rel} ({len(data)} bytes) with byte {pos} incremented by one: fromFile returned, without any error, a network that is not equivalent to a fresh parse ({dd[0]}): {dd[1]}", case)
+    if dd is not None and (zone == "header" or parsed):
+        # (damaged payload that is loaded: observed and counted only, outside the property)
+        v = (f"cache:damaged-{zone}-wrong-network", f"cache of {rel} ({len(data)} bytes) with byte {pos} incremented by one: fromFile returned, without any error, a network that is not equivalent to a fresh parse ({dd[0]}): {dd[1]}", case)
     elif zone == "header" and parsed == 0:
         v = ("cache:corrupt-header-accepted", f"cache of {rel} with header byte {pos} incremented was used", case)
     return key, v
@@ -1593,7 +1600,8 @@ def sweep_item(item):
                 out[f"{zone}:process-{how}"] += 1
                 case = {"part": "sweep", "map": rel, "pos": pos, "cache_b64": base64.b64encode(job[3]).decode()}
                 what = f"the loading process died (wait status {res})" if how == "crashed" else f"the load did not return within {LOAD_DEADLINE_S} s (a normal load takes ~0.05 s)"
-                viol.append((NOT_REJECTED if zone == "payload" else "cache:damaged-header-kills-load", f"cache of {rel} ({len(job[3])} bytes) with byte {pos} incremented by one: {what}", case))
+                if zone == "header":
+                    viol.append(("cache:damaged-header-kills-load", f"cache of {rel} ({len(job[3])} bytes) with byte {pos} incremented by one: {what}", case))
         seen = collections.Counter()
         keep = []
         for v in viol:
@@ -1662,16 +1670,13 @@ def graph_item_rt(item):
         try:
             net = build(path, opts)
         except Exception as e:
-            if variant is None:
-                # a shipped map + documented options: the failing construction-time
-                # assertion *is* an inconsistency of the network being built
-                import traceback
+            # a network that fails to build is not judged (shipped map with an option set, or
+            # deletion variant): counted with the exception type and where it was raised
+            import traceback
 
-                tb = traceback.extract_tb(e.__traceback__)
-                where = f"{pathlib.Path(tb[-1].filename).name}:{tb[-1].lineno} `{tb[-1].line}`" if tb else "?"
-                acc.check("build", f"fails-{type(e).__name__}", False, f"Network.fromFile({rel}, **{opts}) raised {type(e).__name__} at {where}: {str(e)[:200]}")
-            else:
-                res["unbuilt"] = type(e).__name__
+            tb = traceback.extract_tb(e.__traceback__)
+            res["unbuilt"] = type(e).__name__
+            res["unbuilt_where"] = f"{pathlib.Path(tb[-1].filename).name}:{tb[-1].lineno} `{tb[-1].line}`" if tb else "?"
             res.update(acc.out(), parse_s=time.time() - t0, total_s=time.time() - t0)
             return res
         t1 = time.time()
@@ -1817,7 +1822,8 @@ def _run(ctx, maps, empty, P, rundir):
         Network.fromFile(str(d / "m.xodr"), **cm.OPTS["A"])
     size = (d / "m.snet").stat().st_size
     shutil.rmtree(d)
-    positions = ctx.rotate(list(range(0, size + 64, P["sweep_stride"])))
+    # every header byte (judged) + payload bytes by the tier's stride (observed)
+    positions = list(range(0, cm.HEADER)) + ctx.rotate(list(range(cm.HEADER, size + 64, P["sweep_stride"])))
     chunk = max(1, len(positions) // 48)
     sweep_items = [("sweep", SWEEP_MAP, positions[i : i + chunk]) for i in range(0, len(positions), chunk)]
 
@@ -1829,6 +1835,7 @@ def _run(ctx, maps, empty, P, rundir):
     traces = 0
     per_map = {}
     unbuilt = collections.Counter()
+    unbuilt_shipped = {}
     variants_built = variants_total = 0
     one_sided = {}
     worst_excess = worst_tan = 0.0
@@ -1844,6 +1851,8 @@ def _run(ctx, maps, empty, P, rundir):
                     unbuilt[f"{variant['tag']}:{r['unbuilt']}"] += 1
                 else:
                     variants_built += 1
+            elif not r["built"]:
+                unbuilt_shipped.setdefault(rel, []).append({"options": opts, "exception": r["unbuilt"], "where": r.get("unbuilt_where")})
             if r["built"]:
                 nets += 1
             rel_total.update(r["rel"])
@@ -1919,7 +1928,7 @@ def _run(ctx, maps, empty, P, rundir):
         "containment oracle (own STR-tree, exact distances); centreline-segment midpoints for tangency. (B) every operation sequence "
         "of length <= depth over the 17-letter alphabet of models/cache_c20.py is executed on a private copy of the map; every load is "
         "judged (network == fresh parse of the predicted (map version, options), parser-call count allowed by the model, cache file "
-        "effects); plus a single-byte-increment sweep over the cache file. distinct_nontrivial = relation kinds with >= 1 judged link "
+        "effects; a matching cache with a damaged gzip field is observed, not judged); plus a single-byte-increment sweep over the cache file (every header byte judged: must be ignored; payload bytes observed and counted only). distinct_nontrivial = relation kinds with >= 1 judged link "
         "+ distinct (cache class, outcome) pairs observed at loads",
         samples=samples + [{"cache_trace": ["loadA", "editG", "loadA"], "model": "absent -> valid((0,0),A) -> stale -> parser must run, network == fresh(g1, A)"}],
         states=len(states),
@@ -1936,6 +1945,11 @@ def _run(ctx, maps, empty, P, rundir):
         cache_load_outcomes=dict(sorted(tally.items())),
         corruption_sweep={"cache_bytes": size, "positions": len(positions), "stride": P["sweep_stride"], "outcomes": dict(sorted(sweep_out.items()))},
         variants={"total": variants_total, "built_and_judged": variants_built, "not_built_by_deleted_tag_and_exception": dict(unbuilt)},
+        unbuilt={
+            "not_judged": sum(len(v) for v in unbuilt_shipped.values()),
+            "by_map_and_exception": {rel: dict(collections.Counter(f"{u['exception']} at {u['where']}" for u in v)) for rel, v in sorted(unbuilt_shipped.items())},
+            "option_sets": {rel: [u["options"] for u in v] for rel, v in sorted(unbuilt_shipped.items())},
+        },
         maps=sorted(per_map),
         empty_maps_skipped=empty,
         per_map_seconds=per_map,
@@ -1951,11 +1965,15 @@ def _run(ctx, maps, empty, P, rundir):
         "elementAt: any containing top-level element is accepted in the exact pass; the documented priority Intersection>Road>Shoulder>Sidewalk is demanded in the tolerance pass",
         "the OpenDRIVE parser is deterministic within one process (checked: two fresh parses of the cache map are identical)",
         f"empty map files skipped: {empty}",
+        "a network that fails to build (shipped map with an option set, or deletion variant) is not judged; counted in coverage.unbuilt / coverage.variants",
+        "damage of the payload of a cache whose header matches is outside the property: outcomes (re-parsed / used and equivalent / used and different / process hung or died) are counted in coverage.corruption_sweep, not reported",
     ]
     if one_sided:
         ctx.notes.append(f"one-sided road-to-road lane links (reported, not judged): {one_sided}")
+    if unbuilt_shipped:
+        ctx.notes.append("not built, not judged (map: exception x option sets): " + "; ".join(f"{rel}: {dict(collections.Counter(u['exception'] for u in v))}" for rel, v in sorted(unbuilt_shipped.items())))
     ctx.notes.append(f"cache load outcomes: {dict(sorted(tally.items()))}")
-    ctx.notes.append(f"corruption sweep outcomes: {dict(sorted(sweep_out.items()))}")
+    ctx.notes.append(f"corruption sweep outcomes (header: judged; payload: observed only): {dict(sorted(sweep_out.items()))}")
 
 
 def replay(ctx, case):
@@ -2000,7 +2018,8 @@ def replay(ctx, case):
                 if res[1] is not None:
                     ctx.violation(*res[1])
             else:
-                ctx.violation(NOT_REJECTED if zone == "payload" else "cache:damaged-header-kills-load", f"damaged cache of {case['map']} (byte {case['pos']}): loading process {how} ({res})", case)
+                if zone == "header":
+                    ctx.violation("cache:damaged-header-kills-load", f"damaged cache of {case['map']} (byte {case['pos']}): loading process {how} ({res})", case)
         else:
             raise HarnessError(f"unknown case {case}")
     finally:
